@@ -6,6 +6,7 @@ pub mod c01;
 pub mod backend;
 pub mod middle;
 pub mod c11;
+pub mod matrix;
 pub mod c14;
 pub mod c15;
 pub mod c16;
